@@ -14,7 +14,9 @@ func stateProfile() *gast.Profile {
 	p.W[gast.StateCode] = 14
 	p.W[gast.Action] = 10
 	p.ActSpec = func(r *rand.Rand) mon.Spec { return mon.Spec{R: pick(r, 0, 0, 1, 3), Scr: r.Intn(3) == 0, G: r.Intn(2) == 0} }
-	p.PredSpec = func(r *rand.Rand) mon.Spec { return mon.Spec{B: pick(r, 0, 1, 3, 3, 4), Scr: r.Intn(3) == 0} }
+	p.PredSpec = func(r *rand.Rand) mon.Spec { return mon.Spec{B: pick(r, 0, 0, 1, 3, 3, 4), Scr: r.Intn(2) == 0} }
+	p.W[gast.AndCode] = 8
+	p.W[gast.NotCode] = 5
 	p.StateSpec = func(r *rand.Rand) mon.Spec { return mon.Spec{S: 1 + r.Intn(31), G: r.Intn(2) == 0, E: pick(r, 0, 0, 0, 1)} }
 	return p
 }
@@ -55,6 +57,10 @@ func C10(c *Ctx) {
 	profiles := []*gast.Profile{pegProfile(), stateProfile(), errorProfile(), throwProfile()}
 	var gs []*gast.Grammar
 	var lr []bool
+	for _, g := range append(c05Strata(), rollbackStrata()[:20]...) {
+		gs = append(gs, g)
+		lr = append(lr, false)
+	}
 	for i := 0; i < n; i++ {
 		if i%5 == 4 {
 			gs = append(gs, genLR(rng, i%2 == 0))
